@@ -77,6 +77,22 @@ func cmdFunc(args []string) {
 		fmt.Println("ERROR", e)
 	}
 	bad := 0
+	for _, pk := range w.Pkgs {
+		if *pkg != "" && pk.Name != *pkg {
+			continue
+		}
+		lo := w.LangObligations(pk)
+		if len(lo) == 0 || (*fnName != "" && *fnName != "lang") {
+			continue
+		}
+		SolveAll(lo, *timeout, 4, false)
+		for _, ob := range lo {
+			fmt.Printf("== %s: %s %s %.2fs %s\n", ob.Name, ob.Result.Status, ob.Result.Solver, ob.Result.Seconds, truncate(strings.ReplaceAll(ob.Result.Output, "\n", " "), 200))
+			if ob.Result.Status != "unsat" {
+				bad++
+			}
+		}
+	}
 	for _, t := range w.Targets() {
 		if *pkg != "" && t.Pk.Name != *pkg {
 			continue
